@@ -2362,4 +2362,8 @@ REVERT("revert-usize-literal-bound", "C03", "fire A10", "4fef7fd", "pre-fix tree
 M("a10-u16-literal-bound-too-wide", "C03", "fire A10", "src/scan.rs",
   """                                "u16" if n <= u16::MAX as u64 => {""",
   """                                "u16" if n <= u32::MAX as u64 => {""", "u16 literals up to u32::MAX pass the scanner")
+REVERT("revert-no-input-bits", "C05", "fire S16", "9c49737", "pre-fix tree: circuits without any input bit are built")
+M("s16-quiet-any-form", "C05", "quiet", "src/compile.rs",
+  """        if input_gates.iter().all(|bits| *bits == 0) {""",
+  """        if !input_gates.iter().any(|bits| *bits > 0) {""", "behaviour-preserving: the same test written with any()")
 
